@@ -27,6 +27,10 @@ func genHistory(r *Rng, cfg *Config, n int, lsW []int, pInterpose float64) []Op 
 			ops = append(ops, genQueuedOp(r, cfg)...)
 			continue
 		}
+		if pInterpose > 0 && r.Chance(0.04) {
+			ops = append(ops, genBoundaryStageFail(r, cfg)...)
+			continue
+		}
 		op := genLSOp(r, cfg, lsW)
 		if op.Kind != "sleep" && r.Chance(pInterpose) {
 			k := 1
